@@ -236,6 +236,8 @@ def jobs(tier):
         add(S2, (0, 0), 2, "ideal", "scripted", 1, (1, 0), (0,), (1, 0), 1)            # everything + shift
         add(S2f, (0, 1), 2, "huge", "fcfs", 2, (1, 0), (1, 0), (1, 0), 0, cost=3, req_lo=50)
         add(S2f, (0, 1), 2, "huge", "fcfs", 1, (0, 1), (0,), (0, 1), 1, cost=3, req_lo=50)
+        # heterogeneous stations (unequal maxima and voltages) registered in another order, second simulation in the same process
+        add(S2f, (0, 1), 2, "ideal", "uncontrolled", 1, (1, 0), (0,), (0, 1), 0)
         # same stations in the same order, constraints named by position and added in the other order (second simulation in the same process)
         add(S2f, (0, 1), 2, "huge", "fcfs", 2, (0, 1), (1, 0), (0, 1), 0, cost=3, req_lo=50, unnamed=True)
         add(S2, (0, 1), 3, "ideal", "uncontrolled", 1, (1, 0), (0,), (1, 0), 1)
@@ -265,6 +267,9 @@ def jobs(tier):
         for ssp in itertools.permutations(range(3)):
             add(S3, (0, 0, 2), 3, "ideal", "scripted", 2, (0, 1, 2), (0, 1), ssp, 0)
             add(S3, (0, 1, 2), 3, "ideal", "uncontrolled", 2, (1, 2, 0), (1, 0), ssp, 1)
+        for sp in itertools.permutations(range(3)):
+            if sp != (0, 1, 2):
+                add(S3f, (0, 1, 2), 3, "ideal", "uncontrolled", 2, sp, (1, 0), (0, 1, 2), 0)
         for k in (1, 2):
             add(S2, (0, 1), 3, "ideal", "scripted", 2, (1, 0), (1, 0), (1, 0), k)
             add(S2f, (0, 1), 3, "ideal", "fcfs", 2, (1, 0), (1, 0), (1, 0), k, cost=3)
